@@ -417,11 +417,13 @@ Definition conn_compute (rewrite : bytes -> bytes -> outcome bytes) (hs : list c
       else Ok (mkCRep (ch_status h) (ch_headers h) (ch_body h), ch_cache h, k)
   end.
 
-(** [apply_to_response] in [SendKind::send] for the two ranges of the fixture *)
+(** [apply_to_response] in [SendKind::send] for the two ranges of the fixture
+    (a 304 is sent as it is: the range is not applied to its empty body — C09's repair) *)
 Definition conn_range (range : N) (rep : creply) : creply :=
   match range with
   | 0 => rep
   | _ =>
+      if rp_status rep =? 304 then rep else
       let start := if range =? 1 then 0%nat else 2000%nat in
       let len := if range =? 1 then 4%nat else 1000%nat in
       if Nat.leb (length (rp_body rep)) start then mkCRep 416 [] ERR_BODY
